@@ -1,5 +1,5 @@
 PROP = {
-    "thm": ["Umya.Thm.C18", "Umya.Thm.C18Gen"],
+    "thm": ["Umya.Thm.C18", "Umya.Thm.C18Gen", "Umya.Thm.C18Float", "Umya.Thm.C18Display"],
     "harness": "c18",
     "level": "proof",
     "stateful": False,
@@ -8,22 +8,39 @@ PROP = {
                   "(Hinnant closed forms, themselves proved mutually inverse, valid and strictly monotone for all integers / all valid dates) "
                   "minus the day number of 1899-12-30 (one less before 1900-03-01), panic-free on 1900-01-01..9999-12-31, and strictly "
                   "increasing in (date, second). excel_to_date_time_object is modelled generically over a float interface; the round trip "
-                  "to the second is proved for the EXACT-arithmetic instance (fixed point, unit 1/86400 day). The model is tied to the code "
-                  "by a differential check on every run (bit-exact f64 comparison, native IEEE doubles on the Lean side).",
-    "level_note": "The IEEE-754 rounding steps of the f64 code (secs/86400, day+fraction, the *24/*60 chain, round) are NOT proved: they are "
-                  "executed with Lean's native Float in the driver, compared bit-for-bit with Rust, and the to-the-second round trip / "
-                  "monotonicity of the f64 results is established only by the harness oracle (every 97th day x 5 times + 86 400 seconds "
-                  "per quick run; every day x 5 times + 12 x 86 400 seconds per thorough run). chrono's calendar is represented by the "
-                  "reference calendar (trusted). Display: model-vs-implementation and oracle only, no theorem.",
+                  "to the second is proved for the exact-arithmetic instance (C18_time_exact / C18_roundtrip_exact) AND for every instance "
+                  "that satisfies the standard model of binary64 arithmetic (StdModel: + - * / exact times 1+delta, |delta| <= 2^-53, "
+                  "mul/div plus |eta| <= 2^-1074 in the subnormal range, no overflow below 2^1023, floor/round/ofInt/lt/as-i64 exact): "
+                  "C18_serial_float_error (|fl(D + fl(T/86400)) - (D + T/86400)| <= 2958469*2^-53), C18_monotone_float, "
+                  "C18_time_float / C18_time_float_near / C18_time_float_1900, C18_convert_epoch_float, C18_roundtrip_float. "
+                  "Display: for a decidable class of format codes (SimpleDateCode: token lists yyyy yy mmm mm m dd d hh h mm(minutes) ss and "
+                  "separators that the modelled replacement tables read the way the tokens mean; 18 codes incl. built-in ids 14 15 16 17 20 21 22 30 45 "
+                  "shown members by kernel evaluation) the text is proved to be, token by token, the field of civilFromDays(day) / of the second "
+                  "(C18_date_display, _float, _convert), by induction over the token list. The model is tied to the code by a differential "
+                  "check on every run (bit-exact f64 comparison, native IEEE doubles on the Lean side).",
+    "level_note": "The float theorems are RELATIVE to StdModel (and, at 1900-01-01T00:00:00 only, ExactRepr = an add/div whose exact result is a "
+                  "float returns it): hypotheses about IEEE-754 binary64, not proved of any concrete type. Lean's native Float (what the driver "
+                  "executes) is opaque to the kernel, so 'Float / Rust f64 satisfy StdModel' is an assumption; the driver's Float results are "
+                  "compared bit-for-bit with Rust on every request, and the harness oracle checks the round trip / monotonicity of the f64 "
+                  "results (every 97th day x 5 times + 86 400 seconds per quick run; every day x 5 times + 12 x 86 400 seconds per thorough run). "
+                  "Non-vacuity: exact rationals (stdModel_rat) and rationals with every + - * / off by the factor 1+2^-53 (stdModel_qup) are StdModels. "
+                  "chrono's calendar is represented by the reference calendar and chrono's strftime by Umya.Date.strftime (trusted, sampled). "
+                  "Which token lists are SimpleDateCodes is decided per list by running the model of the tables; no general characterisation is proved.",
     "expect_theorems": ["C18_date_fns_match_source", "C18_tables_match_source", "C18_days", "C18_days_1900", "C18_monotone", "C18_civil_roundtrip", "C18_civil_roundtrip_inv",
                         "C18_civil_valid", "C18_civil_monotone", "C18_convert", "C18_time_exact", "C18_time_exact_no_loss",
-                        "C18_roundtrip_exact"],
+                        "C18_roundtrip_exact",
+                        "C18_serial_float_error", "C18_monotone_float", "C18_time_float_near", "C18_time_float", "C18_time_float_1900",
+                        "C18_convert_epoch_float", "C18_roundtrip_float",
+                        "C18_date_display", "C18_date_display_unchecked", "C18_date_display_float", "C18_date_display_convert", "C18_date_display_notrim", "C18_date_display_iso",
+                        "C18_simple_codes"],
     "rule": "quick: every 97th day 1900-01-01..9999-12-31 x {00:00:00, 00:00:01, 11:59:59, 12:00:00, 23:59:59}; every second of one "
             "representative day (chosen by seed); 178 boundary years x 9 month/day corners x 5 times (year ends, Feb 28/29, Mar 1, all century years, "
             "1900-02-28/03-01); malformed arguments (year < 1000, > 9999, negative, i32 extremes; month/day/time out of range; i32 overflow "
             "boundaries); 40 000 arbitrary serials -> date-time (fractions off the second grid, +-1 ulp around integers, < 1, 59.x, 60.x, "
             "negative, NaN, inf); formatted display of a numeric cell for 22 date formats over every 776th day + all seconds/9 of one day + "
-            "19 formats outside the modelled fragment. thorough: every day x 5 times and every second of 12 days as batches of 10^4 / 8640 "
+            "19 formats outside the modelled fragment; each of the 18 SimpleDateCodes of C18_simple_codes (harness SIMPLE_CODES) over every 4656th day "
+            "(offset by code and seed; thorough: every 776th) x rotating times, 4 boundary days x 3 times and every 997th (thorough: 13th) second of "
+            "a representative day, compared with the harness's own token-by-token text (counters fmt.<code>, simple.<code>). thorough: every day x 5 times and every second of 12 days as batches of 10^4 / 8640 "
             "(rolling hash of bit patterns and read-back fields on both sides; the oracle is evaluated per item), plus the quick streams "
             "with 10x the random volume. non-trivial = valid in-domain date/time (ser), in-domain serial away from a rounding tie (dt), "
             "format with a harness-side expected text (fmt); distinct = distinct request line",
@@ -39,20 +56,29 @@ PROP = {
         "bit equality is strictly finer",
     ],
     "assumptions": [
-        "float step: the f64 evaluation of D + T/86400 and of the floor/fraction/round chain in excel_to_date_time_object behaves like exact "
-        "arithmetic to the second for D <= 2958465 (error budget ~6e-5 s); supported by the exhaustive thorough-tier oracle, not proved",
+        "IEEE-754 (float step): Rust's f64 operations + - * / floor round, i32 -> f64, f64 -> i64 and < (and Lean's native Float used by the driver) "
+        "satisfy Umya.Lemmas.FloatStd.StdModel — each of + - * / returns the exact result times (1+delta), |delta| <= 2^-53 (mul/div: plus an absolute "
+        "error <= 2^-1074 when the result is subnormal; exact results above 2^1023 are not covered), floor / round-half-away / conversion of integers "
+        "up to 2^53 / comparison / truncation to i64 are exact on finite values — and, for 1900-01-01T00:00:00 only, ExactRepr (an add / div whose exact "
+        "result is a float returns it). These are HYPOTHESES of C18_*_float theorems; Float is opaque to the Lean kernel, so the link between StdModel "
+        "and the executed arithmetic is not proved (it is what IEEE-754 round-to-nearest guarantees, barring overflow)",
         "dates 1900-01-01 .. 9999-12-31, times 00:00:00 .. 23:59:59 (the serial 60 = fictitious 1900-02-29 is outside the domain)",
         "1900 date system only (convert_date = convert_date_windows_1900); the 1904 branch is modelled and compared but has no theorem",
+        "display: chrono's strftime = Umya.Date.strftime on the specifiers %Y %y %m %-m %d %-d %H %-H %M %S %b, and the regex stages of "
+        "to_formatted_string / format_as_date are the identity on the SimpleDateCodes (both sampled by the fmt streams, not proved)",
     ],
     "partial_clauses": [
-        "C18_time_float (round trip of the f64 code under a standard-model assumption on rounding errors): not attempted; "
-        "C18_time_exact / C18_roundtrip_exact are about exact fixed-point arithmetic, the f64 step is harness-oracle only",
-        "strict monotonicity of the f64 serial: proved for the exact (day, second) pair (C18_monotone); for the rounded f64 value only "
-        "checked by the oracle (next second has a strictly larger serial)",
-        "display of date-formatted cells: no theorem; model of the replacement tables + strftime subset compared with the implementation, "
-        "and the harness checks yyyy-mm-dd hh:mm:ss, yyyy-mm-dd, dd/mm/yyyy, yyyy/mm/dd, d/m/yy, h:mm:ss against its own rendering",
+        "C18_time_float / C18_monotone_float / C18_roundtrip_float: proved for every float instance satisfying StdModel (an assumption about "
+        "IEEE-754, see assumptions), not for Lean's Float or Rust's f64 themselves; the three floor results are not claimed exact, only the "
+        "recomposed second count is. At 1900-01-01T00:00:00 (serial exactly 1 = threshold of `excel_timestamp < 1`) the error bounds alone do not "
+        "decide the base date: that instant needs ExactRepr",
+        "display: theorem only for SimpleDateCodes (18 codes shown members, incl. built-in ids 14 15 16 17 20 21 22 30 45); AM/PM codes (18, 19), "
+        "[h], .0, mmmm / mmmmm / ddd / dddd, quoted and bracketed codes have no theorem (model-vs-implementation comparison only); membership of a "
+        "token list in the class is decided by evaluating the modelled replacement tables, there is no proved syntactic criterion; the text is stated "
+        "with the trimming of blanks at both ends that to_formatted_string performs (C18_date_display_notrim: it is the identity for codes that "
+        "neither start nor end with a blank)",
     ],
-    "technique": "Lean 4 proof over Int (omega with isolated divisions) + bit-exact differential check with native doubles",
+    "technique": "Lean 4 proof over Int (omega with isolated divisions) + forward error analysis over Q under the standard model of binary64 (linarith) + induction over format tokens + bit-exact differential check with native doubles",
     "timeout_thorough": 3000,
     "driver_timeout": 3000,
 }
